@@ -185,3 +185,10 @@ Theorem C13_v2_refused_calls_change_nothing : forall p idx,
   (forall a p', v2_add_in_reissuance p idx a = (false, p') -> p' = p).
 Proof. exact v2_refused_calls_change_nothing. Qed.
 Print Assumptions C13_v2_refused_calls_change_nothing.
+
+Theorem C13_pegin_input_keeps_its_issuance : forall i,
+  vi_vcommit i = None -> vi_kcommit i = None ->
+  unsigned_pegin i = vi_pegin i /\ extract_pegin i = vi_pegin i /\
+  unsigned_issuance i = expected_issuance i /\ extract_issuance i = expected_issuance i.
+Proof. exact pegin_input_keeps_its_issuance. Qed.
+Print Assumptions C13_pegin_input_keeps_its_issuance.
